@@ -1,15 +1,35 @@
-//! kv-http: conformance harness crate (see /verif/DESIGN.md).
+//! kv-http: conformance harness for Authz.tla (C13, C20): drives the real
+//! krill daemon, started in-process, over its Unix socket and over TLS.
 #![allow(dead_code)]
 
 #[path = "../../harness/src/common.rs"]
 mod common;
+mod client;
+mod daemon;
+mod http;
+
+use std::path::PathBuf;
+
+fn arg(args: &[String], name: &str) -> Option<String> {
+    args.iter().position(|a| a == name).and_then(|i| args.get(i + 1)).cloned()
+}
 
 fn main() {
     common::install_panic_hook();
     let args: Vec<String> = std::env::args().collect();
     match args.get(1).map(|s| s.as_str()).unwrap_or("") {
+        "run-http" => {
+            let inp = PathBuf::from(arg(&args, "--in").expect("--in"));
+            let out = PathBuf::from(arg(&args, "--out").expect("--out"));
+            let work = PathBuf::from(arg(&args, "--work").expect("--work"));
+            std::process::exit(http::run(&inp, &out, &work));
+        }
+        "spike" => {
+            let work = PathBuf::from(arg(&args, "--work").expect("--work"));
+            http::spike(&work);
+        }
         _ => {
-            eprintln!("usage: kv-http <subcommand> --in <behaviours.ndjson> --out <trace.ndjson> --work <dir>");
+            eprintln!("usage: kv-http run-http --in <batches.ndjson> --out <trace.ndjson> --work <dir>");
             std::process::exit(2);
         }
     }
